@@ -355,6 +355,10 @@ func runC08(p *Program, r *Report) {
 	// ---- R5 no self-deadlock (a hang is not a reported problem) ------------------------------------------
 	checkNoReentrantLock(p, r, "C08.R5")
 	checkErrDerefGuarded(p, r, "C08.R11", reach)
+	r.Min("C08.R12", 1)
+	r.Min("C08.R13", 2)
+	checkNoDisprovedBounds(p, r, "C08.R13", "template", "internal/safehtmlutil")
+	checkRangeReentryAgreement(p, r, "C08.R12") // the clause #never-merges is a panic clause
 	checkParsedTextGoesToRegisteredMember(p, r, "C08.R10")
 	checkTreeEmptiedOnlyOnBodyFailure(p, r, "C08.R6")
 	// ---- R4 unchecked type assertions ----------------------------------------------------
